@@ -135,6 +135,13 @@ def extract(nng, arch, res):
             d["pad_attr"] = [int(v) for v in op.attrs["explicit_padding"]] if "explicit_padding" in op.attrs else None
             d["read_offsets"] = [None if ro is None else [int(v) for v in ro.as_list()] for ro in op.read_offsets]
             d["write_offset"] = None if op.write_offset is None else [int(v) for v in op.write_offset.as_list()]
+            # C10 (compiled-stream stripes): padding type, split read window, concat write window
+            pad = op.attrs.get("padding", None)
+            d["pad_type"] = None if pad is None else getattr(pad, "name", str(pad))
+            d["read_shapes"] = [None if rs is None else [int(v) for v in rs.as_list()] for rs in op.read_shapes]
+            d["write_shape"] = None if op.write_shape is None else [int(v) for v in op.write_shape.as_list()]
+            d["reversed"] = bool(getattr(cmd, "reversed_operands", False))
+            d["stride_mult"] = [int(v) for v in op.ofm_stride_multiplier]
             cmds.append(d)
         out.append({"name": sg.name, "words": [int(w) for w in sg.register_command_stream], "cmds": cmds,
                     "init": list(init.values()), "accel": arch.accelerator_config.value,
